@@ -327,6 +327,32 @@ def run_sequence(pp, water, salt, seq, M, stats, states, transitions, check_batt
                 M.violate(['C16'], 'LIFE', 'C16:open_stage_not_closed_at_bake', {'sequence': list(seq[:i + 1])})
                 return
             if check_battery:
+                # "after a successful bake every declaring or step-adding call raises RuntimeError" - also a call whose
+                # values would have been refused anyway (a zero quantity, a zero concentration, an undeclared object):
+                # the lock comes first
+                A_, B_, P_, X_ = o['A'], o['B'], o['P'], o['X']
+                probes = [('csf_zero_quantity', lambda: r.create_solution_from(A_, salt, '0.1 M', water, '0 mL', name='Z1')),
+                          ('csf_negative_quantity', lambda: r.create_solution_from(A_, salt, '0.1 M', water, '-1 mL', name='Z2')),
+                          ('csf_zero_concentration', lambda: r.create_solution_from(A_, salt, '0 M', water, '1 mL', name='Z3')),
+                          ('cs_two_of_three', lambda: r.create_solution(salt, water, name='Z4', concentration='1 M')),
+                          ('dilute_zero_concentration', lambda: r.dilute(A_, salt, '0 M', water)),
+                          ('transfer_undeclared', lambda: r.transfer(X_, A_, '1 mL')),
+                          ('create_container_negative', lambda: r.create_container('Z5', initial_contents=[(water, '-1 mL')])),
+                          ('uses_nothing', lambda: r.uses()),
+                          ('start_stage_new', lambda: r.start_stage(fresh_str('zz')))]
+                for pname, pcall in probes:
+                    stats['LIFE.after_bake_probe'] += 1
+                    try:
+                        pcall()
+                        outcome = 'accepted'
+                    except RuntimeError:
+                        continue
+                    except Exception as e_:   # noqa
+                        outcome = type(e_).__name__
+                    if pname == 'start_stage_new' and outcome != 'accepted':
+                        continue          # start_stage / end_stage / bake must raise; the kind is not specified (see ASSUMPTIONS)
+                    M.violate(['C16'], 'LIFE', f'C16:after_bake:{pname}:expected_runtime:got_{outcome}', {'sequence': list(seq[:i + 1])})
+                    return
                 bat = battery(r, res, o, water, salt)
                 # asking is not a recipe call either: the same questions asked again, now after every other question
                 # has been asked once, get the same answers
